@@ -118,3 +118,34 @@ T('C18', 'trim-helper-eq', 'zonal.py', NANEQ, "if _nan_equal(e, val):", all=True
   edits=[('xrspatial/zonal.py', NANEQ, "if _nan_equal(e, val):"), ('xrspatial/zonal.py', "@ngjit\ndef _trim(data, excludes):", "@ngjit\ndef _nan_equal(a, b):\n    return a == b or (np.isnan(a) and np.isnan(b))\n\n\n@ngjit\ndef _trim(data, excludes):")])
 T('C18', 'trim-range-0', 'zonal.py', "    top = 0\n    scan_complete = False\n    for y in range(rows):\n\n        if scan_complete:\n            break\n\n        top = y\n        for x in range(cols):\n            val = data[y, x]\n            is_nodata = False",
   "    top = 0\n    scan_complete = False\n    for y in range(0, rows):\n\n        if scan_complete:\n            break\n\n        top = y\n        for x in range(cols):\n            val = data[y, x]\n            is_nodata = False")
+
+# ------------------------------------------------------------------------------------------------ C11
+M('C11', 'ngjit-parallel', 'utils.py', "ngjit = jit(nopython=True, nogil=True)", "ngjit = jit(nopython=True, nogil=True, parallel=True)", 'S3-parallel')
+M('C11', 'convolve-parallel', 'convolution.py', "@jit(nopython=True, nogil=True)\ndef _convolve_2d_numpy", "@jit(nopython=True, nogil=True, parallel=True)\ndef _convolve_2d_numpy", 'S3-parallel')
+M('C11', 'proximity-closure-cache', 'proximity.py', "    @ngjit\n    def _process_numpy(", "    @jit(nopython=True, nogil=True, cache=True)\n    def _process_numpy(",
+  'S3-cache', edits=[('xrspatial/proximity.py', "    @ngjit\n    def _process_numpy(", "    @jit(nopython=True, nogil=True, cache=True)\n    def _process_numpy("),
+                      ('xrspatial/proximity.py', "from numba import prange", "from numba import prange, jit")])
+M('C11', 'mean-excludes-append', 'focal.py', "    out = agg.data.astype(float)\n", "    excludes.append(0)\n    out = agg.data.astype(float)\n", 'S2')
+M('C11', 'default-stats-mutated', 'zonal.py', "    basis_stats = [s for s in _DASK_BLOCK_STATS if s in stats_funcs]", "    _DASK_BLOCK_STATS.setdefault('count', _stats_count)\n    basis_stats = [s for s in _DASK_BLOCK_STATS if s in stats_funcs]", 'S1')
+M('C11', 'perlin-dask-no-seed', 'perlin.py', "                       seed: int) -> da.Array:\n    np.random.seed(seed)\n    p = np.random.permutation(2**20)", "                       seed: int) -> da.Array:\n    p = np.random.permutation(2**20)", 'S5')
+M('C11', 'terrain-seed-const', 'terrain.py', "        np.random.seed(seed+i)\n        p = np.random.permutation(nrange)\n        p = np.append(p, p)\n\n        noise = _perlin(", "        np.random.seed(i)\n        p = np.random.permutation(nrange)\n        p = np.append(p, p)\n\n        noise = _perlin(", 'S5')
+M('C11', 'terrain-dask-seed-differs', 'terrain.py', "        np.random.seed(seed + i)\n", "        np.random.seed(seed + 2 * i)\n", 'S5-sibling')
+M('C11', 'module-cache-metric', 'proximity.py', "    distance_metric = DISTANCE_METRICS.get(distance_metric, None)\n    if distance_metric is None:",
+  "    if 'last' in _LAST:\n        distance_metric = _LAST['last']\n    distance_metric = DISTANCE_METRICS.get(distance_metric, None)\n    _LAST['last'] = distance_metric\n    if distance_metric is None:", 'S1',
+  edits=[('xrspatial/proximity.py', "    distance_metric = DISTANCE_METRICS.get(distance_metric, None)\n    if distance_metric is None:",
+          "    if 'last' in _LAST:\n        distance_metric = _LAST['last']\n    distance_metric = DISTANCE_METRICS.get(distance_metric, None)\n    _LAST['last'] = distance_metric\n    if distance_metric is None:"),
+         ('xrspatial/proximity.py', "EUCLIDEAN = 0\n", "_LAST = {}\nEUCLIDEAN = 0\n")])
+M('C11', 'global-counter', 'classify.py', "def _run_jenks(data, n_classes):\n", "def _run_jenks(data, n_classes):\n    global _CALLS\n    _CALLS = _CALLS + 1\n", 'S1',
+  edits=[('xrspatial/classify.py', "def _run_jenks(data, n_classes):\n", "def _run_jenks(data, n_classes):\n    global _CALLS\n    _CALLS = _CALLS + 1\n"),
+         ('xrspatial/classify.py', "import xarray as xr\n", "import xarray as xr\n_CALLS = 0\n")], first=True)
+M('C11', 'lru-cache-process', 'proximity.py', "def _process(\n    raster,", "@lru_cache(maxsize=8)\ndef _process(\n    raster,", 'S3-memo',
+  edits=[('xrspatial/proximity.py', "def _process(\n    raster,", "@lru_cache(maxsize=8)\ndef _process(\n    raster,"),
+         ('xrspatial/proximity.py', "from math import sqrt", "from math import sqrt\nfrom functools import lru_cache")])
+M('C11', 'funcattr-state', 'focal.py', "    out = agg.data.astype(float)\n", "    mean.last_passes = passes\n    out = agg.data.astype(float)\n", 'S1')
+M('C11', 'block-fn-writes-input', 'multispectral.py', "            if denominator == 0.0:\n                continue\n            else:\n                out[y, x] = numerator / denominator",
+  "            if denominator == 0.0:\n                arr1[y, x] = 0\n                continue\n            else:\n                out[y, x] = numerator / denominator", 'S6')
+M('C11', 'natural-breaks-global-rng', 'classify.py', "generator = np.random.RandomState(1234567890)", "generator = np.random", 'S5')
+T('C11', 'cache-module-kernel', 'convolution.py', "@jit(nopython=True, nogil=True)\ndef _convolve_2d_numpy", "@jit(nopython=True, nogil=True, cache=True)\ndef _convolve_2d_numpy")
+T('C11', 'lru-cache-scalar-helper', 'convolution.py', "def _is_numeric(s):", "@lru_cache(maxsize=None)\ndef _is_numeric(s):",
+  edits=[('xrspatial/convolution.py', "def _is_numeric(s):", "@lru_cache(maxsize=None)\ndef _is_numeric(s):"), ('xrspatial/convolution.py', "import re\n", "import re\nfrom functools import lru_cache\n")])
+T('C11', 'local-list-append', 'focal.py', "    out = agg.data.astype(float)\n", "    excl = list(excludes)\n    excl.append(0)\n    out = agg.data.astype(float)\n")
